@@ -129,7 +129,11 @@ theorem dq_roundtrip (d rest : Bytes) (minSz maxSz : Nat) (h1 : minSz ≤ d.leng
 messages, flushes, output-buffer changes, TLS / snappy / deflate upgrades, SUB) from a fresh
 connection: the plaintext handed to the successive transport stacks, in order, plus what is
 still buffered, is exactly the concatenation of the frames passed to `Send` — no byte is lost,
-duplicated or reordered when a writer is replaced. -/
+duplicated or reordered when a writer is replaced.
+(Audit round 7, A2: this is about the ORDER of the plaintext only; it cannot say that a writer
+was re-created on the wrong transport, and `connStep .setOutputBuffer` is the behaviour of the
+tree WITH fix F30 — see `Props.C07Stack`, `fixed_tree_is_round6_model` and the witness
+`output_on_negotiated_transport_false` for the tree before it.) -/
 theorem upgrade_loses_nothing (cap : Nat) (ops : List ConnOp) :
     (connRun (conn0 cap) ops).stream = (((connRun (conn0 cap) ops).sent).map encodeFrame).flatten :=
   conn_stream cap ops
